@@ -21,7 +21,18 @@ import re
 MARK = re.compile(r"«(/?)([SEAL])(\d+)(?:\|([^»]*))?»|«\|»")
 
 
+_parse_cache = {}
+
+
 def parse_template(t):
+    if t not in _parse_cache:
+        if len(_parse_cache) > 64:
+            _parse_cache.clear()
+        _parse_cache[t] = _parse_template(t)
+    return _parse_cache[t]
+
+
+def _parse_template(t):
     """-> nested list: strings and dicts {k: 'S'|'E'|'A'|'L', id, info, body:[...], alt:[...]}"""
     pos = 0
     root = []
